@@ -265,6 +265,10 @@ template<typename T, bool OW> void bfs(bool tracked, int maxcap, std::set<std::s
                     st.states++;
                     auto h2 = h; h2.push_back(o); frontier.push_back(std::move(h2));
                     if (st.states % 97 == 3) sample(hist_str(sys.cfg, h, &o) + "  => state " + k);
+                } else {
+                    // a transition into a known state: one more operation of every kind on THIS history (not merged), so that anything the operation left behind that the key does not show surfaces
+                    auto h2 = h; h2.push_back(o);
+                    for (auto &o2 : alphabet) { if (!precondition(after, OW, o2)) continue; mark(hist_str(sys.cfg, h2, &o2)); Model m3; sys.step(h2, &o2, m3); st.transitions++; st.evals++; }
                 }
             }
         }
